@@ -172,9 +172,9 @@ theorem rebuild_eval {op : Op} {args : List Term} {p : Payload} {g : Term → Te
 
 /-! ## substitution of Boolean symbols in quantifier-free terms -/
 
-/-- a map from Boolean (non-function) symbols to well-formed Boolean terms -/
+/-- a map from (non-function) symbols to well-formed terms of the symbol's sort -/
 def SubOK (σ : List (Term × Term)) : Prop :=
-  ∀ kv ∈ σ, ∃ v : Sym, kv.1 = Term.sym v ∧ v.params = [] ∧ v.ret = .bool ∧ WB kv.2
+  ∀ kv ∈ σ, ∃ v : Sym, kv.1 = Term.sym v ∧ v.params = [] ∧ kv.2.wf = true ∧ kv.2.typeOf = some v.ret
 
 /-- `I` with the substituted symbols re-interpreted by the values of their replacements -/
 def updT (I : Interp) (σ : List (Term × Term)) : Interp :=
@@ -210,12 +210,11 @@ theorem updT_wf {I : Interp} (hI : I.WF) {σ : List (Term × Term)} (hσ : SubOK
   cases hl : lookupT σ (Term.sym s) with
   | none => exact hI.sym s
   | some g =>
-    obtain ⟨v, hk, _, hret, hg⟩ := hσ _ (lookupT_mem hl)
+    obtain ⟨v, hk, _, hgw, hgt⟩ := hσ _ (lookupT_mem hl)
     have : s = v := sym_inj hk
     subst this
     simp only
-    rw [hg.isB hI, hret]
-    rfl
+    exact eval_hasSort g hgw _ hgt I hI
 
 theorem substT_nonquant {σ : List (Term × Term)} {op : Op} {args : List Term} {p : Payload}
     (hq : op.isQuantifier = false) (hl : lookupT σ (.node op args p) = none) :
@@ -243,11 +242,11 @@ theorem substT_spec {σ : List (Term × Term)} (hσ : SubOK σ) : (t : Term) →
       fun a ha => substT_spec hσ a (hchwf a ha) (hch a ha)
     cases hl : lookupT σ (.node op args p) with
     | some r =>
-      obtain ⟨v, hk, hpar, hret, hr⟩ := hσ _ (lookupT_mem hl)
-      simp only at hk hr
+      obtain ⟨v, hk, hpar, hrw, hrt⟩ := hσ _ (lookupT_mem hl)
+      simp only at hk hrw hrt
       have hsub : substT σ (.node op args p) = r := by rw [substT, hl]
       rw [hsub]
-      refine ⟨⟨hr.1, by rw [hr.2, hk, typeOf_sym hpar, hret]⟩, fun h => h _ (lookupT_mem hl), fun I _ => ?_⟩
+      refine ⟨⟨hrw, by rw [hrt, hk, typeOf_sym hpar]⟩, fun h => h _ (lookupT_mem hl), fun I _ => ?_⟩
       have hl' : lookupT σ (Term.sym v) = some r := by rw [← hk]; exact hl
       rw [hk, show eval (updT I σ) (Term.sym v) = (updT I σ).sym v from eval_symbol _ v []]
       simp only [updT, hl']
